@@ -24,12 +24,17 @@ class Shape(object):
         self.checks = checks
         self.header = header
         self.line = "lf"
+        self.narrow = fmt == "narrow"  # recording CID that allows digits, dot and blank only (C20: allowed characters are per CID)
+        if self.narrow:
+            fmt = "delimited"
         if ":" in fmt:
             fmt, self.line = fmt.split(":")
         self.eol = {"lf": "\n", "crlf": "\r\n", "cr": "\r", "none": "", "any": "\n"}[self.line]
         self.fmt = fmt
         self.recording = recording
         self.width = 8 if recording else 3
+        # a CID with a single field that may be empty (no row-id field): rows are matched by order and content
+        self.single = nfields == 1 and not recording
         if recording:
             from harness import recording as _recording  # noqa: F401 -- defines the plugin classes before any Cid exists
 
@@ -40,15 +45,16 @@ class Shape(object):
         if self.fmt == "fixed":
             rows.append(["D", "Line delimiter", self.line])
         if self.recording:
-            rows.append(["D", "Allowed characters", "32...125"])  # "~" (126) is not allowed
+            rows.append(["D", "Allowed characters", "32, 46, 48...57" if self.narrow else "32...125"])  # "~" (126) is never allowed
         length = str(self.width) if self.fmt == "fixed" else ""
         for index in range(1, self.nfields + 1):
             if self.recording:
                 rows.append(["F", "f%d" % index, "", "X", length if self.fmt == "fixed" else "...7", "Recording", str(index)])
             else:
                 # every second field may be empty: a whitespace-only cell is then a cell its field must still reject
-                rows.append(["F", "f%d" % index, "", "X" if index % 2 == 0 else "", length, "Integer", "0...99"])
-        rows.append(["F", "rid", "", "", length, "Text", ""])
+                rows.append(["F", "f%d" % index, "", "X" if (index % 2 == 0 or self.single) else "", length, "Integer", "0...99"])
+        if not self.single:
+            rows.append(["F", "rid", "", "", length, "Text", ""])
         for number, check in enumerate(self.checks, 1):
             if check["t"] == "u":
                 rows.append(["C", "check %d" % number, "IsUnique", ", ".join("f%d" % k for k in check["key"])])
@@ -75,9 +81,11 @@ class Shape(object):
                 if cls == "ok":
                     cells.append("%d.%d" % (value, number))
                 elif cls == "rej":
-                    cells.append("r%d.%d" % (value, number))
+                    cells.append(("9%d.%d" if self.narrow else "r%d.%d") % (value, number))
                 elif cls == "emp":
                     cells.append("")
+                elif self.narrow and index % 2 == 1:
+                    cells.append("r%d.%d" % (value, number))  # a letter: allowed by other CIDs of the process, not by this one
                 elif index % 2 == 0 and self.fmt != "fixed":
                     cells.append("%d.long.%d" % (value, number))  # violates the declared length
                 else:
@@ -92,6 +100,8 @@ class Shape(object):
                 cells.append("999999")  # violates the declared length
             else:
                 raise core.MachineryError("cell class %r" % cls)
+        if self.single:
+            return [] if row["w"] == "short" else (cells + ["extra"] if row["w"] == "long" else cells)
         rid = ("0.%d" if self.recording else "%d") % number
         if row["w"] == "short":
             return cells[:self.nfields - 1] + [rid]
@@ -105,7 +115,7 @@ class Shape(object):
         not an integer, out of the rule's range, empty although mandatory, or -- for a field that may be empty and data
         that is not fixed-width -- consisting of white space only.
         """
-        optional = column % 2 == 0
+        optional = column % 2 == 0 or self.single
         if self.fmt == "fixed":
             pool = ["x%d" % value, "100", "1 1"] if optional else ["   ", "x%d" % value, "100", "-1"]
         else:
@@ -210,6 +220,8 @@ def item_of(shape, item, messages=None):
     def number(cell):
         return int(cell.strip().rsplit(".", 1)[-1])
 
+    if shape.single:
+        return ["row", list(item)]
     try:
         return ["row", number(item[-1])]
     except (ValueError, IndexError, TypeError, AttributeError):
@@ -251,6 +263,10 @@ def run_read(shape, cid, run, keep=None):
             else:
                 for item in generator:
                     raw.append(item)
+                    if len(raw) == 1:
+                        # another CID of the same shape is loaded while this data set is being read: the bookkeeping of
+                        # one Cid object must not depend on other Cid objects of the process
+                        shape.new_cid()
         except StopIteration:
             pass
         except Exception as error:  # noqa
@@ -342,10 +358,16 @@ def run_write(shape, cid, run, keep=None):
         emitted = [number for kind, number, *_ in out if kind == "row"]
         back = list(cutplace_rows(shape.new_cid(), source))
         expected_back = [shape.cells(table["rows"][number - 1], number) for number in emitted][shape.header:]
+        if shape.fmt == "fixed":
+            # rows written into the header need not have the declared number of items; fixed-width text cannot be re-split then
+            if any(len(shape.cells(table["rows"][number - 1], number)) != shape.nfields + 1 for number in emitted[:shape.header]):
+                raise _SkipReadBack()
         got = [[cell.rstrip(" ") if shape.fmt == "fixed" else cell for cell in row] if isinstance(row, list) else repr(row)
                for row in back]
         if got != expected_back:
             readback.append("reading the output back gives %s but %s was written" % (got, expected_back))
+    except _SkipReadBack:
+        pass
     except Exception as error:  # noqa
         e = project_error(shape, error)
         if not (e["cls"] == "CheckError" and e["line"] == 0):
@@ -354,6 +376,10 @@ def run_write(shape, cid, run, keep=None):
             readback.append("reading the output back fails at the end (%s) although closing the writer did not" % error)
     return {"out": out, "exc": exc, "acc": acc, "rej": rej, "stream_ok": stream_ok, "written": written,
             "expected_stream": expected_stream, "messages": readback, "calls": calls}
+
+
+class _SkipReadBack(Exception):
+    pass
 
 
 def cutplace_rows(cid, source):
@@ -393,6 +419,8 @@ def normalise_expected(shape, run, expected):
     if exc["cls"] == "DataFormatError":
         exc["line"] = 0
     out = [list(item) for item in expected["out"]]
+    if shape.single:
+        out = [item if item[0] == "err" else ["row", shape.cells(run["ds"]["rows"][item[1] - 1], item[1])] for item in out]
     if run["op"] == "write":
         for item in out:
             if item[0] == "err":
